@@ -91,7 +91,15 @@ func exec(toks []string) (string, string) {
 		if os.Getenv("C06_FULL") != "" {
 			os.Stderr.WriteString("  " + full + "\n")
 		}
-		return "ok " + clip(full), verdict(e, snap)
+		// the oracle's verdict class is part of the output: the model evaluates
+		// its own statement predicate (Model/C06Inv.lean) on its own state, so
+		// the Lean-side statement is compared with the oracle on every state.
+		v := verdict(e, snap)
+		cls := "ok"
+		if strings.HasPrefix(v, "VIOL:") {
+			cls = strings.SplitN(v[5:], " ", 2)[0]
+		}
+		return "ok " + clip(full) + " inv=" + cls, v
 	case "prog":
 		if len(toks) != 3 {
 			return "err:badop", "-"
